@@ -303,7 +303,7 @@ func newWorld(sc *Scenario, st *Stats) *World {
 		w.nodes = append(w.nodes, n)
 		w.got = append(w.got, map[H]*Payload{})
 	}
-	if sc.Dev.Byz {
+	if sc.Dev.Byz || slices.Contains(sc.Kinds, kByz) {
 		w.byz = newByzState(w)
 	}
 	if sc.E2 != nil {
